@@ -109,6 +109,8 @@ class StubHTTPSession:
         # session is aborted / recycled by its owner - also when start() or download() raise
         self.holding = True
         c.held += 1
+        # precondition of the real ConnectionPool.acquire(host, port) that Session.start calls first
+        assert isinstance(request.url_info.port, int), 'Expect int. Got {}'.format(type(request.url_info.port))
         request.prepare_for_send()              # what Stream.write_request does first
         c.sent.append(request.to_bytes())
         c.urls.append(request.url_info.url)
